@@ -103,7 +103,9 @@ class SchedRun:
                 yield env.timeout(sym_num('g%d' % k, self.sort, 0))
                 group += 1
             size = sym_int('s%d' % k, self.cfg.get('smin', 1), self.cfg.get('smax'))
-            pkt = mk_packet(self.Packet, env.now, size, k, flow_id=self.flows[k])
+            # 'ctime': the creation-time field need not follow the arrival order (packets may have travelled differently)
+            ctime = env.now if not self.cfg.get('ctime') else 1000 - k
+            pkt = mk_packet(self.Packet, ctime, size, k, flow_id=self.flows[k])
             self.action += 1
             self.arrivals.append((pkt, env.now, group))
             self.held.append(pkt)
